@@ -33,7 +33,7 @@ MASKS = {
     "qrm": dict(quantifiers=True, op_bias={"exists": 2, "forall": 2}),
     "utfrm": dict(objfluents=True),
     "btrm": dict(bounded=True),
-    "sirm": dict(invariants=True),
+    "sirm": dict(invariants=True, inv_prob=1.0, inv_forall=0.6),
     "tcrm": dict(invariants=False, traj=True, numeric=False, objfluents=False, static_guards=0.3, bool_expr_assign=0.03),
     "uinrm": dict(undefined=True, numeric=True),
 }
